@@ -87,7 +87,9 @@ def run(chk, maxlen, nrandom, explain=False):
             k = rng.randrange(len(rules) + 1)
             rules.insert(k, list(nr) + [f"n{j}"])
             outs.insert(k, NOMATCH)
-        cases.append((effect, eidx, True, outs, rules, REQ, True, "nest", False, "reentrant-function"))
+        cases.append((effect, eidx, True, outs, rules, REQ, True, rng.choice(["nest", "nest1"]), False, "reentrant-function"))
+
+    reload_stratum(chk)
 
     # run implementation
     reqs_model, reqs_spec, obs_impl, sides = [], [], [], []
@@ -155,6 +157,51 @@ def run(chk, maxlen, nrandom, explain=False):
     chk.vm_checked = n
     if not ok:
         chk.disagree(dict(kind="extraction-vs-vm_compute"), "extracted oracle", log, where="vm_compute cross-check")
+
+
+def reload_stratum(chk):
+    """'a disabled enforcer allows everything' - also after the model and/or the policy are reloaded or replaced while
+    it is disabled (the switch is the user's, not part of the model).  Implementation-level SPEC on an enforcer built
+    from files."""
+    import os
+    import tempfile
+    import casbin
+    from ..enforce_cases import MODEL, PLAIN_MATCHER
+    n = 0
+    with tempfile.TemporaryDirectory(prefix="c01_") as d:
+        pol = os.path.join(d, "policy.csv")
+        with open(pol, "w") as f:
+            f.write("p, alice, data1, read, deny, t0\np, bob, data2, write, allow, t1\n")
+        for effect, eidx in EFFECTS:
+            if effect.startswith("subjectPriority"):
+                continue                      # needs a role definition to be loadable from an adapter (C07's models)
+            mp = os.path.join(d, f"model{eidx}_{n}.conf")
+            with open(mp, "w") as f:
+                f.write(MODEL.format(pdef="sub, obj, act, eft, tag", effect=effect, e2="", matcher=PLAIN_MATCHER))
+            for steps in (["load_model"], ["load_policy"], ["load_model", "load_policy"], ["clear_policy"],
+                          ["load_policy", "load_model", "load_policy"], ["set_model"], ["build_role_links"]):
+                e = casbin.Enforcer(mp, pol)
+                e.enable_enforce(False)
+                for st in steps:
+                    if st == "set_model":
+                        m2 = e.new_model(mp)
+                        e.set_model(m2)
+                    else:
+                        getattr(e, st)()
+                n += 1
+                chk.count(("disabled-reload", eidx, tuple(steps)))
+                for req in (("alice", "data1", "read"), ("nobody", "x", "y"), ("bob", "data2", "write")):
+                    try:
+                        got = e.enforce_ex(*req)
+                        got = [bool(got[0]), list(got[1])]
+                    except Exception as exc:  # noqa
+                        got = ["raise", type(exc).__name__]
+                    if got != [True, []]:
+                        chk.spec_fail(dict(stratum="disabled-survives-reload", effect=effect, steps_while_disabled=steps,
+                                           policy=open(pol).read(), request=list(req)), got, [True, []],
+                                      "a disabled enforcer did not allow a request after the model/policy was reloaded")
+                        break
+    chk.extra.setdefault("strata_extra", {})["disabled_reload_cases"] = n
 
 
 def replay(chk, explain):
